@@ -29,7 +29,7 @@ Proof. exact conservation. Qed.
 Print Assumptions C15_conservation.
 
 Theorem C15_end_block_never_fails : forall P kf b c ops s ev t stk,
-  Forall op_no_govsend ops ->
+  Forall op_no_govsend ops -> Forall op_no_corrupt ops ->
   run P kf (init b c) ops = (s, ev) ->
   end_block P kf t stk s <> None.
 Proof. exact end_block_never_fails. Qed.
@@ -43,6 +43,30 @@ Theorem C15_conservation_refuted_by_gov_send :
    (r, gov_bal s', open_sum (props s'))) = (RHalt, FXu 5000, FXu 10000).
 Proof. exact conservation_refuted_by_gov_send. Qed.
 Print Assumptions C15_conservation_refuted_by_gov_send.
+
+(* ---- undecodable proposal records (finding C15-3) ---- *)
+Theorem C15_undecodable_refuted :
+  outcome P0 (h_bad 1) = ([(1, SStale); (2, SRejected)], 0, FXu 1000000, FXu 1000000, RHalt) /\
+  (let s := fst (run P0 kf_code (init bal0 cust0) (firstn 4 (h_bad 2))) in
+   fst (fst (step P0 kf_code s (OEndBlock (10 + 14 * day) stk0))) = RHalt) /\
+  fst (fst (step P0 kf_code (fst (run P0 kf_code (init bal0 cust0) (firstn 3 (h_bad 1)))) (ODeposit 20 1 12 (FXu 5000) false)))
+    = RErr EInvalid.
+Proof. exact undecodable_refuted. Qed.
+Print Assumptions C15_undecodable_refuted.
+
+Theorem C15_undecodable_designated_outcome :
+  outcome P0fix (h_bad 1) = ([(1, SDropped); (2, SRejected)], 0, FXu 1000000, FXu 1000000, ROk) /\
+  outcome P0fix (h_bad 2) = ([(1, SDropped); (2, SFailedBad)], 0, FXu 1000000, FXu 1000000, ROk).
+Proof. exact undecodable_designated_outcome. Qed.
+Print Assumptions C15_undecodable_designated_outcome.
+
+Theorem C15_end_block_never_fails_when_dequeued : forall P kf b c ops s ev t stk,
+  bad_inactive_dequeued P = true -> bad_active_dequeued_by_key P = true ->
+  Forall op_no_govsend ops ->
+  run P kf (init b c) ops = (s, ev) ->
+  end_block P kf t stk s <> None.
+Proof. exact end_block_never_fails_when_dequeued. Qed.
+Print Assumptions C15_end_block_never_fails_when_dequeued.
 
 (* ---- each deposit record is paid out exactly once, in the closing step ---- *)
 Theorem C15_payout_exactly_once : forall P kf b c ops s evs,
@@ -307,7 +331,8 @@ Proof. exact gconservation. Qed.
 Print Assumptions C15_gconservation.
 
 Theorem C15_gend_block_never_fails : forall kf gops P b c ps ev t stk,
-  Forall gop_no_govsend gops -> grun kf (P, init b c) gops = (ps, ev) ->
+  Forall gop_no_govsend gops -> Forall gop_no_corrupt gops ->
+  grun kf (P, init b c) gops = (ps, ev) ->
   end_block (fst ps) kf t stk (snd ps) <> None.
 Proof. exact gend_block_never_fails. Qed.
 Print Assumptions C15_gend_block_never_fails.
